@@ -628,6 +628,12 @@ func c12Derived(c *Ctx) {
 		{"length/as-argument-changed-by-callee", "如何动？\n\t输入数\n\t以数（自增：9）\n\t输出 数\n令集 = 【1，2】\n令典 = 【“a” = 1】\n令果 = 【（动：集之长度），（动：典之长度）】\n输出【果，集之长度，典之长度】\n", "list[list[num(11),num(10)],num(2),num(1)]"},
 		{"text-form/changed-in-place", "令集 = 【1，2】\n令文 = 集之文本\n输出【集之文本 为 文，集之文本 为 集之文本】\n", "list[bool(true),bool(true)]"},
 		{"reverse/read-twice-independent", "令集 = 【【1】，【2】】\n令一 = 集之逆序\n令二 = 集之逆序\n以一#1（后增：9）\n输出【一，二，集】\n", "list[list[list[num(2),num(9)],list[num(1)]],list[list[num(2)],list[num(1)]],list[list[num(1)],list[num(2)]]]"},
+		{"copy/dictionary-number-entry-changed-in-place", "令原表 = 【“甲” = 1，“乙” = 2】\n令副本 = 原表\n以原表#“甲”（自增：10）\n输出【原表，副本，副本#“甲”，副本之所有值】\n", `list[dict["甲"=num(11),"乙"=num(2)],dict["甲"=num(1),"乙"=num(2)],num(1),list[num(1),num(2)]]`},
+		{"copy/dictionary-number-entry-changed-on-the-copy", "令原表 = 【“甲” = 1，“乙” = 【“丙” = 3】】\n令副本 = 原表\n以副本#“甲”（自减：1）\n以副本#“乙”#“丙”（自增：1）\n输出【原表，副本】\n", `list[dict["甲"=num(1),"乙"=dict["丙"=num(3)]],dict["甲"=num(0),"乙"=dict["丙"=num(4)]]]`},
+		{"copy/list-number-item-changed-in-place", "令原 = 【1，【2，3】】\n令副 = 原\n以原#1（自增：10）\n以原#2#1（自增：10）\n输出【原，副，副#1】\n", "list[list[num(11),list[num(12),num(3)]],list[num(1),list[num(2),num(3)]],num(1)]"},
+		{"copy/dictionary-stored-in-a-list", "令原表 = 【“甲” = 1】\n令册 = 【】\n以册（后增：原表）\n以原表#“甲”（自增：5）\n输出【册，原表】\n", `list[list[dict["甲"=num(1)]],dict["甲"=num(6)]]`},
+		{"copy/dictionary-as-a-literal-item", "令原表 = 【“甲” = 1】\n令外 = 【“内” = 原表，“数” = 原表#“甲”】\n以原表#“甲”（自增：5）\n输出【外，原表】\n", `list[dict["内"=dict["甲"=num(1)],"数"=num(1)],dict["甲"=num(6)]]`},
+		{"copy/values-of-a-copied-dictionary-in-a-loop", "令原表 = 【“甲” = 1，“乙” = 2】\n令副本 = 原表\n以键、值遍历副本之所有值：\n\t以值（自增：100）\n输出【原表，副本】\n", `list[dict["甲"=num(1),"乙"=num(2)],dict["甲"=num(1),"乙"=num(2)]]`},
 		{"keys/changed-in-loop", "令典 = 【“a” = 1，“b” = 2】\n令键 = 典之所有索引\n以键（后增：“c”）\n输出【典之所有索引，典之长度】\n", `list[list[text("a"),text("b")],num(2)]`},
 	}
 	reqs := []Req{}
